@@ -295,4 +295,182 @@ theorem u8x4_sse4_pixel_eq_passInt (p : Nat) (hp : p < 32) (row : List Int) (sta
   | 2, _ => rfl
   | 3, _ => rfl
 
+/-! ### the AVX2 one-row kernel -/
+
+theorem acc8A_eq (a0 a1 a2 a3 b0 b1 b2 b3 : Int) (row : List Int) (x : Nat) (k0 k1 k2 k3 k4 k5 k6 k7 : Int) :
+    acc8A ([wrap32 a0, wrap32 a1, wrap32 a2, wrap32 a3], [wrap32 b0, wrap32 b1, wrap32 b2, wrap32 b3]) row x [k0, k1, k2, k3, k4, k5, k6, k7]
+      = ([wrap32 (a0 + dotC row 0 [k0, k1, k2, k3] x), wrap32 (a1 + dotC row 1 [k0, k1, k2, k3] x),
+          wrap32 (a2 + dotC row 2 [k0, k1, k2, k3] x), wrap32 (a3 + dotC row 3 [k0, k1, k2, k3] x)],
+         [wrap32 (b0 + dotC row 0 [k4, k5, k6, k7] (x + 4)), wrap32 (b1 + dotC row 1 [k4, k5, k6, k7] (x + 4)),
+          wrap32 (b2 + dotC row 2 [k4, k5, k6, k7] (x + 4)), wrap32 (b3 + dotC row 3 [k4, k5, k6, k7] (x + 4))]) := by
+  simp only [acc8A, add32, madd, pshufb, i16At, srcBytes, kBytes, u8x4_avx2_one_sh1_lo, u8x4_avx2_one_sh1_hi, u8x4_avx2_one_sh2_lo,
+    u8x4_avx2_one_sh2_hi, u8x4_avx2_one_sh3_lo, u8x4_avx2_one_sh3_hi, u8x4_avx2_one_sh4_lo, u8x4_avx2_one_sh4_hi,
+    List.range, List.range.loop, List.map, List.flatMap_cons, List.flatMap_nil, List.append_nil,
+    List.cons_append, List.nil_append, List.getD_cons_succ, List.getD_cons_zero, List.zipWith, dotC]
+  simp [i16_byte, i16_lohi, w32_add_left, w32_add_right]
+  refine ⟨⟨?_, ?_, ?_, ?_⟩, ?_, ?_, ?_, ?_⟩ <;> (congr 1 <;> ring_nf)
+
+theorem acc4A_eq (a0 a1 a2 a3 b0 b1 b2 b3 : Int) (row : List Int) (x : Nat) (k0 k1 k2 k3 : Int) :
+    acc4A ([wrap32 a0, wrap32 a1, wrap32 a2, wrap32 a3], [wrap32 b0, wrap32 b1, wrap32 b2, wrap32 b3]) row x [k0, k1, k2, k3]
+      = ([wrap32 (a0 + dotC row 0 [k0, k1] x), wrap32 (a1 + dotC row 1 [k0, k1] x),
+          wrap32 (a2 + dotC row 2 [k0, k1] x), wrap32 (a3 + dotC row 3 [k0, k1] x)],
+         [wrap32 (b0 + dotC row 0 [k2, k3] (x + 2)), wrap32 (b1 + dotC row 1 [k2, k3] (x + 2)),
+          wrap32 (b2 + dotC row 2 [k2, k3] (x + 2)), wrap32 (b3 + dotC row 3 [k2, k3] (x + 2))]) := by
+  simp only [acc4A, low64, add32, madd, pshufb, i16At, srcBytes, kBytes, u8x4_avx2_one_sh5_lo, u8x4_avx2_one_sh5_hi,
+    u8x4_avx2_one_sh6_lo, u8x4_avx2_one_sh6_hi,
+    List.range, List.range.loop, List.map, List.flatMap_cons, List.flatMap_nil, List.append_nil, List.replicate,
+    List.cons_append, List.nil_append, List.getD_cons_succ, List.getD_cons_zero, List.zipWith, dotC]
+  simp [i16_byte, i16_lohi, w32_add_left, w32_add_right]
+  refine ⟨⟨?_, ?_, ?_, ?_⟩, ?_, ?_, ?_, ?_⟩ <;> (congr 1 <;> ring_nf)
+
+theorem acc2A_eq (t0 t1 t2 t3 : Int) (row : List Int) (x : Nat) (k0 k1 : Int) :
+    acc2A [wrap32 t0, wrap32 t1, wrap32 t2, wrap32 t3] row x k0 k1
+      = [wrap32 (t0 + dotC row 0 [k0, k1] x), wrap32 (t1 + dotC row 1 [k0, k1] x),
+         wrap32 (t2 + dotC row 2 [k0, k1] x), wrap32 (t3 + dotC row 3 [k0, k1] x)] := by
+  simp only [acc2A, clone4, low64, add32, madd, pshufb, i16At, srcBytes, kBytes, u8x4_avx2_one_sh7,
+    List.range, List.range.loop, List.map, List.flatMap_cons, List.flatMap_nil, List.append_nil, List.replicate,
+    List.cons_append, List.nil_append, List.getD_cons_succ, List.getD_cons_zero, List.zipWith, dotC]
+  simp [i16_byte, i16_lohi, w32_add_left, w32_add_right]
+  refine ⟨?_, ?_, ?_, ?_⟩ <;> (congr 1 <;> ring_nf)
+
+theorem loop2A_eq (row : List Int) : ∀ (n : Nat) (ks : List Int) (_hn : ks.length ≤ n) (x : Nat) (t0 t1 t2 t3 : Int),
+    loop2A row ks x [wrap32 t0, wrap32 t1, wrap32 t2, wrap32 t3]
+      = [wrap32 (t0 + dotC row 0 ks x), wrap32 (t1 + dotC row 1 ks x),
+         wrap32 (t2 + dotC row 2 ks x), wrap32 (t3 + dotC row 3 ks x)] := by
+  intro n
+  induction n with
+  | zero =>
+    intro ks hn x t0 t1 t2 t3
+    have : ks = [] := List.length_eq_zero_iff.mp (by omega)
+    subst this
+    simp [loop2A, dotC]
+  | succ n ih =>
+    intro ks hn x t0 t1 t2 t3
+    match ks, hn with
+    | [], _ => simp [loop2A, dotC]
+    | [k], _ => simp only [loop2A]; rw [acc1_eq]
+    | k0 :: k1 :: rest, hn =>
+      simp only [loop2A]
+      rw [acc2A_eq, ih rest (by simp at hn; omega)]
+      have e : ∀ c, dotC row c (k0 :: k1 :: rest) x = dotC row c [k0, k1] x + dotC row c rest (x + 2) := by
+        intro c
+        have := dotC_append row c [k0, k1] rest x
+        simpa using this
+      simp only [e, add_assoc]
+
+/-- the 8-coefficient loop: the two half accumulators together gain the dot product of the coefficients consumed -/
+theorem loop8A_spec (row : List Int) : ∀ (n : Nat) (ks : List Int) (_hn : ks.length ≤ n) (x : Nat) (a0 a1 a2 a3 b0 b1 b2 b3 : Int),
+    ∃ a0' a1' a2' a3' b0' b1' b2' b3' : Int,
+      loop8A row ks x ([wrap32 a0, wrap32 a1, wrap32 a2, wrap32 a3], [wrap32 b0, wrap32 b1, wrap32 b2, wrap32 b3])
+        = (([wrap32 a0', wrap32 a1', wrap32 a2', wrap32 a3'], [wrap32 b0', wrap32 b1', wrap32 b2', wrap32 b3']),
+           x + 8 * (ks.length / 8), ks.drop (8 * (ks.length / 8))) ∧
+      a0' + b0' = a0 + b0 + dotC row 0 (ks.take (8 * (ks.length / 8))) x ∧
+      a1' + b1' = a1 + b1 + dotC row 1 (ks.take (8 * (ks.length / 8))) x ∧
+      a2' + b2' = a2 + b2 + dotC row 2 (ks.take (8 * (ks.length / 8))) x ∧
+      a3' + b3' = a3 + b3 + dotC row 3 (ks.take (8 * (ks.length / 8))) x := by
+  intro n
+  induction n with
+  | zero =>
+    intro ks hn x a0 a1 a2 a3 b0 b1 b2 b3
+    have : ks = [] := List.length_eq_zero_iff.mp (by omega)
+    subst this
+    refine ⟨a0, a1, a2, a3, b0, b1, b2, b3, ?_, ?_, ?_, ?_, ?_⟩ <;> simp [loop8A, dotC]
+  | succ n ih =>
+    intro ks hn x a0 a1 a2 a3 b0 b1 b2 b3
+    by_cases h8 : 8 ≤ ks.length
+    · match ks, h8, hn with
+      | k0 :: k1 :: k2 :: k3 :: k4 :: k5 :: k6 :: k7 :: rest, _, hn =>
+        rw [loop8A, dif_pos (by simp)]
+        simp only [List.take, List.drop]
+        rw [acc8A_eq]
+        obtain ⟨a0', a1', a2', a3', b0', b1', b2', b3', hrun, h0, h1, h2, h3⟩ :=
+          ih rest (by simp at hn; omega) (x + 8) (a0 + dotC row 0 [k0, k1, k2, k3] x) (a1 + dotC row 1 [k0, k1, k2, k3] x)
+            (a2 + dotC row 2 [k0, k1, k2, k3] x) (a3 + dotC row 3 [k0, k1, k2, k3] x)
+            (b0 + dotC row 0 [k4, k5, k6, k7] (x + 4)) (b1 + dotC row 1 [k4, k5, k6, k7] (x + 4))
+            (b2 + dotC row 2 [k4, k5, k6, k7] (x + 4)) (b3 + dotC row 3 [k4, k5, k6, k7] (x + 4))
+        have hl : (k0 :: k1 :: k2 :: k3 :: k4 :: k5 :: k6 :: k7 :: rest).length / 8 = rest.length / 8 + 1 := by
+          simp only [List.length_cons]; omega
+        have hmul : 8 * (rest.length / 8 + 1) = 8 * (rest.length / 8) + 8 := by ring
+        refine ⟨a0', a1', a2', a3', b0', b1', b2', b3', ?_, ?_, ?_, ?_, ?_⟩
+        · rw [hrun, hl, hmul]
+          simp only [List.drop_succ_cons, Nat.add_assoc]
+          congr 2
+          omega
+        all_goals
+          rw [hl, hmul]
+          simp only [List.take_succ_cons]
+          have e := fun c => dotC_append row c [k0, k1, k2, k3, k4, k5, k6, k7] (rest.take (8 * (rest.length / 8))) x
+          have e4 := fun c => dotC_append row c [k0, k1, k2, k3] [k4, k5, k6, k7] x
+          simp only [List.cons_append, List.nil_append, List.length_cons, List.length_nil] at e e4
+        · rw [h0, e 0, e4 0]; ring
+        · rw [h1, e 1, e4 1]; ring
+        · rw [h2, e 2, e4 2]; ring
+        · rw [h3, e 3, e4 3]; ring
+    · have hdiv : ks.length / 8 = 0 := Nat.div_eq_of_lt (by omega)
+      refine ⟨a0, a1, a2, a3, b0, b1, b2, b3, ?_, ?_, ?_, ?_, ?_⟩
+      · rw [loop8A, dif_neg h8, hdiv]; simp
+      all_goals (rw [hdiv]; simp [dotC])
+
+theorem pow2_half (p : Nat) (hp2 : 2 ≤ p) : (2 : Int) ^ (p - 2) + 2 ^ (p - 2) = 2 ^ (p - 1) := by
+  obtain ⟨q, rfl⟩ : ∃ q, p = q + 2 := ⟨p - 2, by omega⟩
+  have : q + 2 - 1 = q + 1 := by omega
+  rw [this]; simp only [Nat.add_sub_cancel]; rw [pow_succ]; ring
+
+/-- **the AVX2 U8x4 one-row kernel equals the portable kernel**, byte for byte (precision at least 2: the kernel
+    starts its two half accumulators at `1 << (PRECISION - 2)`) -/
+theorem u8x4_avx2_pixel_eq_portable (p : Nat) (hp2 : 2 ≤ p) (hp : p < 32) (row : List Int) (start : Nat) (ks : List Int) :
+    pixelA p row start ks = [clip8 (2 ^ (p - 1) + dotC row 0 ks start) p, clip8 (2 ^ (p - 1) + dotC row 1 ks start) p,
+                             clip8 (2 ^ (p - 1) + dotC row 2 ks start) p, clip8 (2 ^ (p - 1) + dotC row 3 ks start) p] := by
+  unfold pixelA
+  by_cases hlen : ks.length < 8
+  · simp only [hlen, if_true]
+    rw [loop2A_eq row ks.length ks (le_refl _)]
+    simp only [List.map, lane_finish _ p hp]
+  · simp only [hlen, if_false]
+    obtain ⟨a0, a1, a2, a3, b0, b1, b2, b3, hrun, h0, h1, h2, h3⟩ :=
+      loop8A_spec row ks.length ks (le_refl _) start (2 ^ (p - 2)) (2 ^ (p - 2)) (2 ^ (p - 2)) (2 ^ (p - 2))
+        (2 ^ (p - 2)) (2 ^ (p - 2)) (2 ^ (p - 2)) (2 ^ (p - 2))
+    rw [hrun]
+    simp only
+    set m := 8 * (ks.length / 8) with hm
+    have hmle : m ≤ ks.length := by omega
+    have hrestlen : (ks.drop m).length < 8 := by simp only [List.length_drop]; omega
+    have hsplit : ∀ c, dotC row c ks start = dotC row c (ks.take m) start + dotC row c (ks.drop m) (start + m) := by
+      intro c
+      have := dotC_append row c (ks.take m) (ks.drop m) start
+      rw [List.take_append_drop, List.length_take, Nat.min_eq_left hmle] at this
+      exact this
+    have hh := pow2_half p hp2
+    by_cases h4 : (ks.drop m).length ≥ 4
+    · simp only [h4, if_true]
+      generalize hrest : ks.drop m = rest at *
+      match rest, h4, hrestlen with
+      | r0 :: r1 :: r2 :: r3 :: rest', _, hl =>
+        simp only [List.take, List.drop]
+        rw [acc4A_eq]
+        simp only [add32, List.zipWith, w32_add_left, w32_add_right]
+        rw [loop2A_eq row rest'.length rest' (le_refl _)]
+        simp only [List.map, lane_finish _ p hp]
+        have e : ∀ c, dotC row c (r0 :: r1 :: r2 :: r3 :: rest') (start + m)
+            = dotC row c [r0, r1] (start + m) + dotC row c [r2, r3] (start + m + 2) + dotC row c rest' (start + m + 4) := by
+          intro c
+          have e1 := dotC_append row c [r0, r1, r2, r3] rest' (start + m)
+          have e2 := dotC_append row c [r0, r1] [r2, r3] (start + m)
+          simp only [List.cons_append, List.nil_append, List.length_cons, List.length_nil] at e1 e2
+          rw [e1, e2]
+        refine (List.cons.injEq _ _ _ _).mpr ⟨?_, (List.cons.injEq _ _ _ _).mpr ⟨?_, (List.cons.injEq _ _ _ _).mpr ⟨?_, (List.cons.injEq _ _ _ _).mpr ⟨?_, rfl⟩⟩⟩⟩
+        · congr 1; rw [hsplit 0, e 0]; linarith
+        · congr 1; rw [hsplit 1, e 1]; linarith
+        · congr 1; rw [hsplit 2, e 2]; linarith
+        · congr 1; rw [hsplit 3, e 3]; linarith
+    · simp only [h4, if_false]
+      simp only [add32, List.zipWith, w32_add_left, w32_add_right]
+      rw [loop2A_eq row (ks.drop m).length (ks.drop m) (le_refl _)]
+      simp only [List.map, lane_finish _ p hp]
+      refine (List.cons.injEq _ _ _ _).mpr ⟨?_, (List.cons.injEq _ _ _ _).mpr ⟨?_, (List.cons.injEq _ _ _ _).mpr ⟨?_, (List.cons.injEq _ _ _ _).mpr ⟨?_, rfl⟩⟩⟩⟩
+      · congr 1; rw [hsplit 0]; linarith
+      · congr 1; rw [hsplit 1]; linarith
+      · congr 1; rw [hsplit 2]; linarith
+      · congr 1; rw [hsplit 3]; linarith
+
 end Fir.Proofs
